@@ -79,6 +79,7 @@ def _decode(fn, wire):
     except FuelExhausted:
         return "step bound exceeded (loop does not advance)"
     except Exception as e:
+        __import__('vf.h').h.reraise_if_harness(e)
         return f"leaked {type(e).__name__}: {e}"
     if not isinstance(out, list):
         return "returned a non-list"
@@ -214,6 +215,7 @@ def _inject_and_probe(node, blob):
     except LIB as e:
         return f"receive worker died with {type(e).__name__}"
     except Exception as e:
+        __import__('vf.h').h.reraise_if_harness(e)
         return f"receive worker died with {type(e).__name__}: {e}"
     if node.assoc.lock.locked():
         return "association.lock left held by the receive worker"
@@ -225,6 +227,7 @@ def _inject_and_probe(node, blob):
         except LIB as e:
             return f"state machine thread died with {type(e).__name__}"
         except Exception as e:
+            __import__('vf.h').h.reraise_if_harness(e)
             return f"state machine thread died with {type(e).__name__}: {e}"
         if node.assoc.lock.locked() or node.assoc.postprocess_recv_messages_lock.locked():
             return "a lock is left held after a tick"
@@ -239,6 +242,7 @@ def _inject_and_probe(node, blob):
                 node.d.send_message(DM.load(ref_msg(1, 0xc0, 316, 16777251, 1, 5, [ref_avp(263, 0x40, None, b"s;1;2")]))[0])
                 node.d.close()
             except (LIB + (Exception,)) as e:
+                __import__('vf.h').h.reraise_if_harness(e)
                 return f"local API call raised {type(e).__name__}"
             return None
     while not node.assoc.postprocess_recv_messages.empty():
@@ -265,6 +269,7 @@ def _probe(node):
         for _ in range(4):
             node.tick()
     except (LIB + (Exception,)) as e:
+        __import__('vf.h').h.reraise_if_harness(e)
         return f"node died on the probe with {type(e).__name__}"
     if node.assoc.postprocess_recv_messages.empty():
         return "a well-formed request is no longer delivered"
@@ -275,6 +280,7 @@ def _probe(node):
         node.d.send_message(DM.load(probe)[0])
         node.d.close()
     except (LIB + (Exception,)) as e:
+        __import__('vf.h').h.reraise_if_harness(e)
         return f"local API call raised {type(e).__name__}"
     return None
 
@@ -381,6 +387,7 @@ def _live_unaligned(data, cut):
                 while not node.assoc.postprocess_recv_messages.empty():
                     delivered.append(node.d.get_message().header.hop_by_hop)
         except (LIB + (Exception,)) as e:
+            __import__('vf.h').h.reraise_if_harness(e)
             why = f"a node thread died with {type(e).__name__}: {e}"
             break
         if node.assoc.lock.locked():
